@@ -6,7 +6,7 @@ QUICK = ["msp430", "6502", "8051", "avr8", "z80", "stm8", "riscv", "lc3", "6800"
 
 # CPUs whose decoders showed violations / did not finish in the first thorough sweep; they are triaged one by one
 # (see triage/ and DESIGN.md) and are not part of the registered tiers until then
-PENDING = {"pdp8"}
+PENDING = set()
 
 
 def jobs(tier, names=None):
@@ -16,6 +16,7 @@ def jobs(tier, names=None):
         c = CPUS[n]
         d = {"DISASM_FN": c["disasm"], "DISASM_HDR": '"%s"' % c["hdr"], "NBYTES": c["nbytes"], "BASE": c["base"],
              "MINLEN": c["minlen"], "MAXLEN": c["maxlen"], "FLAGS": '"%s"' % c["flags"] if False else c["flags"], "ENDIAN": c["endian"], "LOCALITY": None}
+        if n == "pdp8": d["STRIP_SEMI_COMMENT"] = None
         js.append(vp.Job("disasm_total.%s" % n, "disasm_total.cpp", d, max_paths=60000 if tier == "quick" else 400000,
                          timeout=240 if tier == "quick" else 600, allow_partial=True, min_completed=1 if n in ('tms1000', 'tms1100', 'copper', 'dspic') else 20, render_classes=2, merge_ptrs=True, support_bits=10))
         # the same harness explored false-branch-first: reaches the 'no table row matches' / undefined-opcode paths at once
